@@ -293,8 +293,12 @@ def check_index(c):
     contiguous = c["kind"] == "slice" and (c["idx"][2] in (None, 1))
     if c["kind"] == "int":
         v = val & 1
-        guard(operator.setitem, b, idx, v)
+        # the value of a single-bit write: an int, a bool, or a one-bit vector (b[i] = c[j])
+        V = Bits(v, 1) if form == "bits" else bool(v) if form == "short" else v
+        guard(operator.setitem, b, idx, V)
         exp = M.assign(a, pos, v)
+        if form == "bits":
+            is_vec(V, (v, 1), "write[int]:value-operand-changed")
     else:
         v = val & ((1 << L) - 1)
         if form == "bits":
